@@ -4,6 +4,7 @@ import IastModel.Lemmas.NsCount
 import IastModel.Lemmas.Targets
 import IastModel.Lemmas.Temps
 import IastModel.Js.FindEntry
+import IastModel.Spec.EraseSpec
 /-
   Line-protocol driver.  One JSON record per stdin line (written by the Rust harness, which ran the
   real rewriter on the same request), one JSON verdict per stdout line:
@@ -109,6 +110,9 @@ def processRewrite (rec : J) : Verdict := Id.run do
       else if nt p != 0 then "reserved-temporary-name"
       else if cfg.methods.any (fun m => !m.operator && (m.src == Generated.addTag || m.src == Generated.addAssignTag || m.src == Generated.tplTag))
         then "method-named-like-an-operator-tag" else "met"))
+    -- the hypotheses of the erasure theorems (C02): a well-formed source tree; without optional chaining for the
+    -- whole-pipeline theorem
+    v := v.addStat "hyp_erase" (jstr (if !srcOk p then "not-a-well-formed-source-tree" else if !noOpt p then "met-except-optional-chaining" else "met"))
     if r.fuelOut then v := v.addCorr "fuel" (jstr "model ran out of fuel")
     -- outcome / status
     let realStatus :=
